@@ -159,6 +159,16 @@ class GatewayRig:
         await self.settle()
         return self._event({"a": "timer"})
 
+    async def advance(self, ms):
+        """let virtual time pass; timers falling due on the way fire as recorded timer events"""
+        target = self.loop._vnow + ms / 1000.0
+        while True:
+            when = self.next_timer()
+            if when is None or when > target + 1e-9:
+                break
+            await self.timer()
+        self.loop._vnow = max(self.loop._vnow, target)
+
     async def submit(self, i):
         async def call():
             ash = self.ash_mod
